@@ -6,7 +6,8 @@ shape oracle Exec.tla) and the same compiled consumer crates; C01 looks at the
 conforming vectors, C03 at the single-point corruptions.
 """
 import json, os, sys
-import vlib, prog, payload, progcheck
+import copy
+import vlib, prog, payload, progcheck, render
 from consumer import Consumers
 from vlib import Check, ToolError
 
@@ -19,7 +20,16 @@ def run(ck, prop, sj, progs, tier):
     variants = [("off", dict(BASE_OPTS))]
     if prop == "C03":
         variants.append(("on", dict(BASE_OPTS, fragments_other_variant=True)))
-    gens = progcheck.gen_programs(progs, schema_path, variants)
+    # renamed copies (type names that are not UpperCamelCase) run under normalization = rust against the renamed schema
+    rn_path = os.path.join(workdir, "universe_renamed.graphql")
+    vlib.write_if_changed(rn_path, render.sdl(prog.rename_types(prog.schema_from_tla(sj, "full"), prog.TYPE_RENAMES), fold_extensions=False))
+    gens = {}
+    for flag, sp, vs in ((False, schema_path, variants),
+                         (True, rn_path, [(t, dict(o, normalization="rust")) for t, o in variants])):
+        idx = [i for i, p in enumerate(progs) if bool(p.get("renamed")) == flag]
+        g = progcheck.gen_programs([progs[i] for i in idx], sp, vs)
+        for (j, tag), r in g.items():
+            gens[(idx[j], tag)] = r
     cons = Consumers("c01", nbins=14)
     case_of = {}
     gen_fail = 0
@@ -83,7 +93,8 @@ def run(ck, prop, sj, progs, tier):
         ck.count()
         rep = {"query": p["text"], "doc": p["doc"], "vector": {"path": v["path"], "alt": v["alt"]["a"],
                "param": v["alt"]["x"], "class": v["class"], "verdict": v["verdict"], "after_type_flip": v.get("ctx", "")},
-               "payload": pl, "other_variant": tag, "observed": r, "prog": {"doc": p["doc"], "vectors": [v]}}
+               "payload": pl, "other_variant": tag, "observed": r, "prog": {"doc": p["doc"], "vectors": [v], "renamed": bool(p.get("renamed"))},
+               "normalization": "rust" if p.get("renamed") else "none"}
         name = "%s-%s-%s%s-%s" % (p["hash"], tag, v.get("ctx", "").replace("/", "."), v["path"].replace("/", "."), v["alt"]["a"] + v["alt"]["x"] + v["alt"]["val"]["t"] + v["alt"]["val"]["s"][:8])
         if r is None or "skipped" in r:
             continue
@@ -152,6 +163,15 @@ def main_prop(prop, tier, replay=None, selftest=False):
     json.dump(sj, open(os.path.join(vlib.WORK, "c01", "schema.json"), "w"))
     if len(progs) < 40:
         raise ToolError("vacuous: %d programs" % len(progs))
+    extra = []
+    for i, p in enumerate(progs):
+        if i % 3 == 0 and any(x in json.dumps(p["doc"]) for x in prog.TYPE_RENAMES):
+            q = prog.rename_program(copy.deepcopy(p))
+            q["renamed"] = True
+            q["hash"] = p["hash"] + "r"
+            extra.append(q)
+    progs = progs + extra
+    ck.notes["renamed_programs_under_rust_normalization"] = len(extra)
     if selftest:
         v = progs[0]["vectors"][0]
         if prop == "C01":
